@@ -600,9 +600,10 @@ where
 }
 
 /// Cross-process lock serialising the subject's mprotect-heavy operations (code cache
-/// creation and block translation).  In this sandbox concurrent mprotect(PROT_EXEC) calls
-/// from several processes collapse to a small fraction of the single-process throughput;
-/// taking turns restores it.  Purely a harness-side scheduling measure.
+/// creation and block translation).  In this sandbox the cost of mprotect(PROT_EXEC) grows
+/// steeply with the number of busy CPUs (two processes translating concurrently are ~10x
+/// slower in total than one; spinning waiters make it worse still), so translations take
+/// turns behind a sleeping file lock.  Purely a harness-side scheduling measure.
 pub fn xlock() -> i32 {
   static mut FD: i32 = -1;
   unsafe {
